@@ -4,7 +4,7 @@
    initial notifier population satisfying [wfH] (stored reference counts positive, at most one user
    notifier per identity on a list — both are invariants, [wf_is_invariant]) and every history. *)
 From Coq Require Import List Arith Bool PeanoNat Permutation.
-From TV Require Import C09.Model C09.Proofs.
+From TV Require Import C09.Model C09.Law C09.Proofs C09.LawProofs.
 Import ListNotations.
 
 Theorem wf_is_invariant : forall h ops s tr s',
@@ -101,6 +101,30 @@ Theorem removal_plan_is_registration_plan : forall h k o c g x,
 Proof. exact plan_rm_equiv. Qed.
 Print Assumptions removal_plan_is_registration_plan.
 
+(* The whole boolean law of Law.v (clauses 1-6: failed operation changed nothing, balanced => initial
+   populations, call counts, extra removal raises, weak references, changes never raise) evaluates to
+   "no failure" on the model's own observations of EVERY history, for every heap in which only HasTraits
+   objects have traits, every universe of observables that covers the initial notifier population and
+   every well-formed start state.  The same term is what ./check evaluates on the implementation. *)
+Theorem law_holds_on_every_history : forall (h : heap) (univ : list obsv) (s0 : state) (ops : list op),
+  heap_wf h -> wfH (st_hooks s0) -> (forall o, ~ In o univ -> st_hooks s0 o = []) ->
+  law_hist h univ (snap_of_hooks univ (st_hooks s0)) 0 (mkL [] []) (dead_handlers s0) (dead_objs s0)
+           (snap_of_hooks univ (st_hooks s0)) (observe univ h s0 ops) = [].
+Proof. exact law_holds_on_model. Qed.
+Print Assumptions law_holds_on_every_history.
+
+(* what ./check evaluates (law_hist_dyn, which follows heap mutations of dynamic cases) is this law on
+   every history without heap mutation *)
+Theorem checked_law_is_the_law : forall h univ init hist i L dh dobj prev,
+  law_hist_dyn univ init i h L dh dobj prev (map (fun p => (LStatic (fst p), snd p)) hist)
+  = law_hist h univ init i L dh dobj prev hist.
+Proof. exact law_hist_dyn_static. Qed.
+Print Assumptions checked_law_is_the_law.
+
+Theorem correspondence_heaps_are_wf : forall ds, heap_wf (TV.C09.Corr.heap_of ds).
+Proof. exact heap_of_wf. Qed.
+Print Assumptions correspondence_heaps_are_wf.
+
 (* ---------- non-vacuity ---------- *)
 (* object 0 has kids = list 5 = [1; 2; 3], f = 1, g = 2; objects 1, 2 have `value` (field 2), object 3
    has not.  Fields: 2 value, 3 f, 4 g, 5 kids, 9 nonexist. *)
@@ -139,3 +163,15 @@ Example history_nontrivial :
      (None, 0); (None, 0); (None, 0)]
   /\ map (fun o => length (st_hooks s o)) [(0, 1); (0, 3); (1, 1); (1, 2); (2, 2)] = [1; 2; 1; 1; 0].
 Proof. vm_compute. split; reflexivity. Qed.
+
+Example ex_heap_wf : heap_wf ex_heap.
+Proof.
+  intros x f. unfold ex_heap, is_ht. cbn [has_trait kind_of].
+  destruct x as [|[|[|[|x]]]]; cbn; try reflexivity. discriminate.
+Qed.
+(* the law is not vacuous: on a history where a handler is silently left attached it fails *)
+Example law_detects_partial_rollback :
+  let univ := [(0, 1); (0, 5); (1, 2); (2, 2); (3, 1); (5, 0)] in
+  let bad := mkI (Some ValueError) [] [((1, 2), [NUser (7, 0, 0) 1])] None in
+  law_hist ex_heap univ [] 0 (mkL [] []) [] [] [] [(Register 0 7 0 [g_kids_items_value], bad)] <> [].
+Proof. vm_compute. discriminate. Qed.
